@@ -6,6 +6,8 @@ MGensQuick == {"Pv", "ghz", "w", "c10"}
 OGensQuick == {"Gm", "id"}
 MGensAll == {"Pv", "Qv", "ghz", "w", "c01", "c100", "neel1", "zero"}
 OGensAll == {"Gm", "Hm", "id", "zeros"}
+MGensSim == {"Pv", "Qv", "ghz", "w", "neel1", "zero"}
+OGensSim == {"Gm", "Hm", "id"}
 ScalarsQuick == {<<1, -1>>}
 ScalarsAll == {<<2, 0>>, <<1, -1>>, <<0, 1>>}
 NoMutant == ""
